@@ -416,6 +416,15 @@ def rule_whitelist(ctx):
         for p in s.params:
             if isinstance(p, tuple):
                 excl |= set(p)
+    # closure under a second report: several steps that were dispatched together can report the same input under the
+    # FAILED cause one after the other (there are awaits between dispatch and report), so the state the first report
+    # leaves behind must have rows of its own
+    trans0 = ctx.prog.fold("workflow", "_HASH_TRANSITIONS")
+    HC0 = ctx.prog.enum("HashUpdateCause")
+    have0 = {(c, st_, k) for (c, st_, k) in trans0}
+    missing_rows = sorted({(new_state.name, k2) for (c, st_, k), (new_state, _a) in trans0.items() if c == HC0.FAILED for k2 in (True, False) if (HC0.FAILED, new_state, k2) not in have0})
+    ctx.check(not missing_rows, "workflow._HASH_TRANSITIONS", "the FAILED rows are closed under a second report of the same file",
+              f"no row for (FAILED, state, on disk) = {missing_rows}: when two steps that run together both notice the change of a shared input, the second report finds a state without a transition, update_file_hashes raises ConsistencyError and the director dies", "closed")
     # every state the rescan hands in has a transition row for the cause it is handed in with
     trans = ctx.prog.fold("workflow", "_HASH_TRANSITIONS")
     HC = ctx.prog.enum("HashUpdateCause")
